@@ -32,6 +32,21 @@ Fixpoint replace_by_id (i : nat) (c : json) (d : json) : json :=
 Definition label_of (d : json) : option nat :=
   match d with JList i _ | JDict i _ => Some i | _ => None end.
 
+(* all identity labels of a document, pre-order *)
+Fixpoint labels (d : json) : list nat :=
+  match d with
+  | JList i l => i :: flat_map labels l
+  | JDict i l => i :: flat_map (fun kx => labels (snd kx)) l
+  | _ => []
+  end.
+
+Fixpoint nodupb (l : list nat) : bool :=
+  match l with [] => true | x :: r => negb (existsb (Nat.eqb x) r) && nodupb r end.
+
+(* labels are unique and none lies in the window [nl, nl + n) from which a cascade over n steps allocates *)
+Definition freshb (doc : json) (nl n : nat) : bool :=
+  nodupb (labels doc) && forallb (fun i => Nat.ltb i nl || Nat.leb (nl + n) i) (labels doc).
+
 (* apply an in-place operation to the object `target` (a container seen earlier) inside document doc.
    The operation sees the object's current contents.  A detached object is not part of the document:
    the operation then has no effect on doc (the harness never generates that situation). *)
